@@ -144,7 +144,7 @@ def split_fvar_and_parameter(parameter: float) -> tuple:
     >>> split_fvar_and_parameter(-10.33333333)
     (-1, -0.33333333)
     """
-    fvar = abs(int(str(parameter).split('.')[0])) // 10  # The free variable number e.g. 2
+    fvar = int(abs(float(parameter))) // 10  # The free variable number e.g. 2
     value = abs(float(parameter)) % 10  # The value with which the free variable was multiplied e.g. 0.5
     if parameter < 0:
         value *= -1
